@@ -424,7 +424,10 @@ static int GC_Show(var self, var out, int pos) {
 
 void GC_Sweep(struct GC* gc) {
    
-  gc->freelist = realloc(gc->freelist, sizeof(var) * gc->nitems);
+  /* This sweep's own list. A sweep can be started from inside another one (a
+  ** finaliser that allocates crosses the threshold): the list the fields point
+  ** to then belongs to the enclosing sweep and is left alone */
+  gc->freelist = malloc(sizeof(var) * (gc->nitems + 1));
   gc->freenum = 0;
   
   size_t i = 0;
@@ -470,15 +473,22 @@ void GC_Sweep(struct GC* gc) {
   GC_Resize_Less(gc);
   gc->mitems = gc->nitems + gc->nitems / 2 + 1;
   
-  for (size_t i = 0; i < gc->freenum; i++) {
-    if (gc->freelist[i]) {
-      var item = gc->freelist[i];
-      gc->freelist[i] = NULL;
+  var* freelist = gc->freelist;
+  uintptr_t freenum = gc->freenum;
+  
+  for (size_t i = 0; i < freenum; i++) {
+    if (freelist[i]) {
+      var item = freelist[i];
+      freelist[i] = NULL;
       dealloc(destruct(item));
+      /* The finaliser may have run a sweep of its own, which ends by clearing
+      ** the fields: the rest of this list is still to be done */
+      gc->freelist = freelist;
+      gc->freenum = freenum;
     }
   }
   
-  free(gc->freelist);
+  free(freelist);
   gc->freelist = NULL;
   gc->freenum = 0;
   
@@ -526,9 +536,7 @@ static void GC_Set(var self, var key, var val) {
   gc->minptr = (uintptr_t)key < gc->minptr ? (uintptr_t)key : gc->minptr;
   GC_Resize_More(gc);
   GC_Set_Ptr(gc, key, (bool)c_int(val));
-  /* Not from a finaliser that allocates while a sweep is going through its
-  ** list of objects to free: a second sweep would take that list over */
-  if (gc->nitems > gc->mitems and gc->freelist is NULL) {
+  if (gc->nitems > gc->mitems) {
     GC_Mark(gc);
     GC_Sweep(gc);
   }
